@@ -892,17 +892,26 @@ fn draw_cfg(rng: &mut Rng, max_events: usize) -> GenCfg {
         w_launch_bg: onoff(rng, 80, 3),
         prompt_event_pct: [10, 30, 50, 70][rng.below(4)],
         batch_pct: [0, 20, 40, 70][rng.below(4)],
-        reuse_pids: false,
+        reuse_pids: rng.chance(25),
     }
 }
 
-fn gen_pids(rng: &mut Rng, w: &World, n: usize) -> Vec<i32> {
+fn gen_pids(rng: &mut Rng, w: &World, n: usize, reuse: bool) -> Vec<i32> {
     let mut v: Vec<i32> = Vec::new();
     let mut guard = 0;
     while v.len() < n && guard < 1000 {
         guard += 1;
-        let c = 100 + rng.below(48) as i32;
-        if v.contains(&c) || w.procs.iter().any(|p| p.pid == c) {
+        let mut c = 100 + rng.below(48) as i32;
+        if reuse && rng.chance(60) {
+            // the kernel may hand out the pid of a process that has been reaped
+            let dead: Vec<i32> = w.procs.iter().filter(|p| matches!(p.state, PState::Reaped(_))).map(|p| p.pid).collect();
+            if !dead.is_empty() {
+                c = dead[rng.below(dead.len())];
+            }
+        }
+        // (a number stays allocated while it is the group id of a live process)
+        let group_alive = w.procs.iter().any(|p| p.pgid == c && !matches!(p.state, PState::Reaped(_)));
+        if v.contains(&c) || w.pid_in_use(c) || group_alive || (!reuse && w.procs.iter().any(|p| p.pid == c)) {
             continue;
         }
         v.push(c);
@@ -972,7 +981,7 @@ fn gen_prompt_step(w: &mut World, sh: &cv::Shell) -> Option<Step> {
         0 | 1 => {
             let n = 1 + rng.below(cfg.max_procs);
             let mut r2 = rng.clone();
-            let pids = gen_pids(&mut r2, w, n);
+            let pids = gen_pids(&mut r2, w, n, cfg.reuse_pids);
             if let Source::Gen { rng, .. } = &mut w.source {
                 *rng = r2;
             }
@@ -1148,7 +1157,12 @@ fn run_one(source: Source, handler_mode: bool, keep_log: bool) -> RunResult {
             Step::Launch { bg, pids } => {
                 let ok = {
                     let w = wl.lock().unwrap();
-                    !pids.is_empty() && pids.len() <= 3 && w.live_jobs() < 3 && !pids.iter().any(|p| w.pid_in_use(*p)) && {
+                    // a pid number is reused only after its process was reaped, its group has no live
+                    // member, and the shell has dropped it from its table (wrap-around takes a while)
+                    let known: HashSet<i32> = sh.jobs.values().flat_map(|j| j.pids.iter().copied().chain(std::iter::once(j.gid))).collect();
+                    let group_alive = |c: i32| w.procs.iter().any(|p| p.pgid == c && !matches!(p.state, PState::Reaped(_)));
+                    !pids.is_empty() && pids.len() <= 3 && w.live_jobs() < 3 && !pids.iter().any(|p| w.pid_in_use(*p))
+                        && !pids.iter().any(|p| known.contains(p) || group_alive(*p)) && {
                         let mut d = pids.clone();
                         d.sort();
                         d.dedup();
@@ -1470,6 +1484,11 @@ fn worker(args: &[String]) -> i32 {
                 let rr2 = run_replay(&small, r.handler_mode, true);
                 let stable = faithful && class_of(&rr) == Some(v.class.clone()) && rr.hash == rr2.hash;
                 let mut j = scenario_json(seed, idx as i64, r.handler_mode, &small, &rr);
+                if rr.violation.is_none() {
+                    // the recorded trace did not reproduce: report the original verdict, flagged unstable
+                    j["violation"] = json!({"class": v.class, "detail": v.detail});
+                    j["steps"] = json!(r.trace.iter().map(|s| s.to_json()).collect::<Vec<_>>());
+                }
                 j["original_steps"] = json!(r.trace.len());
                 j["replay_stable"] = json!(stable);
                 if !stable {
